@@ -68,10 +68,10 @@ package preempt
 // declared cluster-wide), proved at both call sites from the loop invariants below over the per-queue directory of
 // tables (the local map smallestFailedJobsByQueue; an engine limit: heap objects carry no type, so the invariant cannot
 // be quantified over "every directory created by this run" instead of naming the local):
-//   [tablesWellFormed] every table registered under a queue is well-formed,
+//   [tablesExist] [storedJobsExist] every table registered under a queue is well-formed (no nil table, map or stored job;
+//                      the allocated(..) conjuncts are heap-closedness facts the stable-field reasoning needs),
 //   [perQueueScope]    and holds only jobs of that queue,
-//   [tablesSeparate]   tables of different queues share nothing (recording a failure in one leaves the others alone);
-//   [tablesExist] / [storedJobsExist] are heap-closedness facts the stable-field reasoning needs.
+//   [tablesSeparate]   tables of different queues share nothing (recording a failure in one leaves the others alone).
 // A skipped job lost against a stored failed job of its own signature AND its own queue (IsEasierToSchedule
 // [falseNamesStoredRepresentative] [skipOnlyWithinScope]); every other popped job is handed to
 // attemptToPreemptForPreemptor.
@@ -90,11 +90,10 @@ package preempt
 //@   modifies *
 //@   loop 1
 //@     modifies *
-//@     invariant [tablesExist] forall q in smallestFailedJobsByQueue :: smallestFailedJobsByQueue[q] != nil && allocated(smallestFailedJobsByQueue[q]) && allocated(smallestFailedJobsByQueue[q].representatives)
+//@     invariant [tablesExist] forall q in smallestFailedJobsByQueue :: smallestFailedJobsByQueue[q] != nil && allocated(smallestFailedJobsByQueue[q]) && smallestFailedJobsByQueue[q].representatives != nil && allocated(smallestFailedJobsByQueue[q].representatives)
 //@     invariant [tablesSeparate] forall q1 in smallestFailedJobsByQueue :: forall q2 in smallestFailedJobsByQueue :: q1 != q2 ==> smallestFailedJobsByQueue[q1].representatives != smallestFailedJobsByQueue[q2].representatives
-//@     invariant [tablesWellFormed] forall q in smallestFailedJobsByQueue :: common.repsWF(smallestFailedJobsByQueue[q])
-//@     invariant [storedJobsExist] forall q in smallestFailedJobsByQueue :: forall k in smallestFailedJobsByQueue[q].representatives :: allocated(smallestFailedJobsByQueue[q].representatives[k])
-//@     invariant [perQueueScope] forall q in smallestFailedJobsByQueue :: common.repsAllInQueue(smallestFailedJobsByQueue[q], q)
+//@     invariant [storedJobsExist] forall q in smallestFailedJobsByQueue :: forall k in smallestFailedJobsByQueue[q].representatives :: smallestFailedJobsByQueue[q].representatives[k] != nil && allocated(smallestFailedJobsByQueue[q].representatives[k])
+//@     invariant [perQueueScope] forall q in smallestFailedJobsByQueue :: forall k in smallestFailedJobsByQueue[q].representatives :: smallestFailedJobsByQueue[q].representatives[k].Queue == q
 //@   ensures [orderDrained] utils.orderEmpty(jobsOrderByQueues)
 //@ end
 // ---- end exec2 ----
